@@ -249,6 +249,11 @@ class CodeGenerator(abc.ABC):
         return formatted_code
 
     def _doprint(self, lhs, rhs, use_variable_prefix: bool = False) -> str:
+        if isinstance(rhs, (sympy.core.relational.Relational, sympy.logic.boolalg.BooleanFunction)):
+            # A relation that is a whole right hand side stands for the number 1 or 0, as it does
+            # inside an expression. A boolean is not a number in every target: with numpy
+            # True + True is True and True - True raises
+            rhs = sympy.Piecewise((1, rhs), (0, True))
         if use_variable_prefix:
             return f"{self.variable_prefix}{self.printer.doprint(Assignment(lhs, rhs))}"
         return self.printer.doprint(Assignment(lhs, rhs))
